@@ -160,7 +160,7 @@ Proof.
     cbn [hs_step]. req "disconnect".
     destruct Hst as [[C A]|[[C A]|[C A]]]; rewrite A in H; try discriminate H; injection H as <- <-; rewrite C in R; cbn in R;
       destruct R as (Q & L & _ & D); cbn [fst snd]; (split; [reflexivity|]); (split; [|split; [cbn [h_sm]; auto|reflexivity]]);
-      unfold abs, abs_state; cbn [h_sm h_queues h_closing]; rewrite D, Q; reflexivity.
+      unfold abs, abs_state; cbn [h_sm h_queues h_closing]; rewrite D; reflexivity.
   - (* control message *)
     cbn [not_separate] in Hns. clear Hcl.
     assert (Hq : forall x, any_waiting (abs s) x = queued s x) by reflexivity.
